@@ -130,8 +130,10 @@ static void prop_solve(Tape &t, Ctx &c) {
     size_t iters = 0; double resid = 0;
     std::string cerr_;
     bool threw = false;
+    std::unique_ptr<Solver> Sp;
     try {
-        Solver S(comm, tup, prm);
+        Sp.reset(new Solver(comm, tup, prm));
+        Solver &S = *Sp;
         if (env_flag("VF_C12_TRACE")) { // diagnostic aid (never set by bin/check)
             if (me == 0) { boost::property_tree::write_json(std::cerr, prm); std::cerr << "TRACE prm: "; for (auto &kv : prm.get_child("precond")) std::cerr << kv.first << "=" << kv.second.data() << " "; std::cerr << "\n" << S.precond() << std::endl; }
             std::vector<double> z(Al.n, 0.0); S.precond().apply(fl, z); int bad = 0; for (double v : z) bad += !std::isfinite(v);
@@ -142,17 +144,58 @@ static void prop_solve(Tape &t, Ctx &c) {
     if (env_flag("VF_C12_TRACE")) std::cerr << "TRACE rank " << me << " left the solver: iters=" << iters << " resid=" << resid << std::endl;
     // a rank-local exception would leave the others inside a collective: nothing we can do but report it afterwards
     std::vector<cplx> X = gather_vec(xl);
-    std::vector<double> all = allgatherv(std::vector<double>{double(iters), resid}, MPI_DOUBLE);
+    std::vector<double> all = allgatherv(std::vector<double>{double(iters), resid, threw ? 1.0 : 0.0}, MPI_DOUBLE);
+    // BiCGStab(L) and IDR(s) keep iterating past the exhaustion of the Krylov space; the recursively carried residual then has no
+    // relation to the true one (the root cause listed as F-recursion-gap under C01, same solver templates with the MPI inner
+    // product). Class membership as in C01: the run performed at least as many matrix-vector products as the numerical grade of
+    // (A B, f). B is probed column by column through the distributed preconditioner - collectively, and only when the strict
+    // bound is exceeded (decision taken from rank 0's gathered numbers, so every rank makes the same calls).
+    bool gap_class = false; size_t grade = 0, matvecs = 0;
+    {
+        bool any_threw = false; for (int r = 0; r < k; ++r) any_threw = any_threw || all[3 * r + 2] != 0;
+        double res0 = all[1]; size_t it0 = static_cast<size_t>(all[0]);
+        if ((si == 2 || si == 6) && !any_threw && Sp && std::isfinite(res0) && static_cast<ptrdiff_t>(X.size()) == n && n <= 400) {
+            std::vector<double> xg(n); for (ptrdiff_t i = 0; i < n; ++i) xg[i] = X[i].real();
+            long double rt0 = true_relres(A, f, xg);
+            double kap = cond1_spd(A);
+            long double allow0 = 0.01L * std::max<long double>(res0, rt0) + 200.0L * 1.1e-16L * kap * (it0 + 2);
+            if (std::abs(res0 - rt0) > allow0) {
+                Eigen::MatrixXd Bm(n, n);
+                std::vector<double> e(Al.n), z(Al.n);
+                for (ptrdiff_t j = 0; j < n; ++j) {
+                    std::fill(e.begin(), e.end(), 0.0); std::fill(z.begin(), z.end(), 0.0);
+                    if (j >= dom[me] && j < dom[me + 1]) e[j - dom[me]] = 1.0;
+                    Sp->precond().apply(e, z);
+                    std::vector<cplx> col = gather_vec(z);
+                    for (ptrdiff_t i = 0; i < n; ++i) Bm(i, j) = col[i].real();
+                }
+                Eigen::MatrixXd Am = Eigen::MatrixXd::Zero(n, n);
+                for (ptrdiff_t i = 0; i < n; ++i) for (ptrdiff_t j = A.ptr[i]; j < A.ptr[i + 1]; ++j) Am(i, A.col[j]) += A.val[j];
+                Eigen::MatrixXd M = Am * Bm;
+                Eigen::VectorXd v(n); for (ptrdiff_t i = 0; i < n; ++i) v(i) = f[i];
+                // numerical grade: first Arnoldi step whose sub-diagonal entry drops below 1e-6 of the largest one
+                { double nv = v.norm(); std::vector<Eigen::VectorXd> Q; if (nv > 0) Q.push_back(v / nv); double hmax = 0; grade = static_cast<size_t>(n);
+                  for (ptrdiff_t j = 1; nv > 0 && j <= n; ++j) { Eigen::VectorXd w = M * Q.back(); for (int pass = 0; pass < 2; ++pass) for (auto &q : Q) w -= q * q.dot(w); double h = w.norm(); if (!std::isfinite(h) || h <= 1e-6 * hmax || h == 0) { grade = static_cast<size_t>(j); break; } hmax = std::max(hmax, h); Q.push_back(w / h); } }
+                int sprm = prm.get("solver.s", 4);
+                matvecs = si == 2 ? 2 * it0 : it0 + it0 / std::max(1, sprm) + 1;
+                gap_class = matvecs >= grade;
+            }
+        }
+    }
 
     mpi_checked([&]() {
         VF_REQUIRE(!threw, cerr_);
-        for (int r = 1; r < k; ++r) VF_REQUIRE(all[2 * r] == all[0] && memcmp(&all[2 * r + 1], &all[1], 8) == 0, "rank " << r << " reports (" << all[2 * r] << ", " << all[2 * r + 1] << ") but rank 0 reports (" << all[0] << ", " << all[1] << ")");
+        for (int r = 1; r < k; ++r) VF_REQUIRE(all[3 * r] == all[0] && memcmp(&all[3 * r + 1], &all[1], 8) == 0, "rank " << r << " reports (" << all[3 * r] << ", " << all[3 * r + 1] << ") but rank 0 reports (" << all[0] << ", " << all[1] << ")");
         VF_REQUIRE(static_cast<ptrdiff_t>(X.size()) == n, "assembled solution has " << X.size() << " entries");
         std::vector<double> x(n); for (ptrdiff_t i = 0; i < n; ++i) x[i] = X[i].real();
         long double rt = true_relres(A, f, x);
         size_t bound = 500 + (si == 2 ? L - 1 : 0);
         VF_REQUIRE(iters <= bound, "iteration count " << iters << " exceeds the configured maximum 500" << (si == 2 ? " (+L-1)" : ""));
         c.nontrivial = iters >= 2 && active >= 2;
+        if (gap_class) { // only the iteration budget is asserted inside the class (as in C01)
+            c.label("recursion-gap-class"); c.desc << " [matvecs=" << matvecs << " >= numerical grade " << grade << "]";
+            if (c.known("F-recursion-gap-mpi")) return;
+        }
         if (std::isfinite(resid)) {
             double kappa = n <= 400 ? cond1_spd(A) : 1e4;
             long double allow = 0.01L * std::max<long double>(resid, rt) + 200.0L * 1.1e-16L * kappa * (iters + 2);
@@ -506,7 +549,18 @@ static void prop_one_level(Tape &t, Ctx &c) {
     int dkind = sdd ? static_cast<int>(t.u(0, 2)) : 0, ndv = 1;
     if (dkind) { ndv = static_cast<int>(t.u(2, 3)); if (minrows < ndv) { dkind = 0; ndv = 1; } }
     std::vector<double> ztab;
-    if (dkind == 2) { ztab.resize(static_cast<size_t>(n) * ndv); for (ptrdiff_t i = 0; i < n; ++i) for (int j = 0; j < ndv; ++j) ztab[i * ndv + j] = j == 0 ? 1.0 : t.uni(0.5, 1.5) + (t.b() ? static_cast<double>(i) / n : 0.0); }
+    if (dkind == 2) {
+        // 1, x, x^2 in the local coordinate of each sub-domain (independent on >= ndv distinct points, also when the tape is
+        // exhausted and every further draw is 0), each entry perturbed by a generated factor in [1, 1.2]
+        ztab.resize(static_cast<size_t>(n) * ndv);
+        for (int r = 0; r < k; ++r) {
+            ptrdiff_t rows = dom[r + 1] - dom[r];
+            for (ptrdiff_t i = dom[r]; i < dom[r + 1]; ++i) {
+                double x = rows > 1 ? static_cast<double>(i - dom[r]) / (rows - 1) : 0.0;
+                for (int j = 0; j < ndv; ++j) ztab[i * ndv + j] = j == 0 ? 1.0 : (j == 1 ? 0.5 + x : 0.25 + x * x) * (1.0 + 0.2 * t.r01());
+            }
+        }
+    }
     if (sdd) c.label(dkind == 0 ? "deflation:constant" : dkind == 1 ? "deflation:constant-per-dof" : "deflation:generated-vectors");
     c.label(sdd ? "subdomain_deflation" : "block_preconditioner"); c.label(std::string("s:") + LSOLVER[si]); c.label(local_amg ? "local:amg" : "local:relaxation");
     c.desc << (sdd ? "subdomain_deflation" : "block_preconditioner") << " ranks=" << k << " " << LSOLVER[si] << " local=" << (local_amg ? "amg/" : "relax/") << LRELAX[ri] << " " << g.family << " n=" << n << " deflation_kind=" << dkind << " ndv=" << ndv << " dom:"; for (auto d : dom) c.desc << d << ",";
@@ -514,6 +568,7 @@ static void prop_one_level(Tape &t, Ctx &c) {
     auto tup = std::make_tuple(static_cast<size_t>(Al.n), Al.ptr, Al.col, Al.val);
     std::vector<double> fl(f.begin() + dom[me], f.begin() + dom[me + 1]), xl(Al.n, 0.0);
     size_t iters = 0; double resid = 0; bool threw = false; std::string cerr_;
+    if (env_flag("VF_C12_TRACE") && me == 0) std::cerr << "TRACE " << c.desc.str() << std::endl;
     try {
         if (sdd) {
             typedef amgcl::mpi::subdomain_deflation<amgcl::runtime::preconditioner<B>, amgcl::runtime::mpi::solver::wrapper<B>, amgcl::mpi::direct::skyline_lu<double>> SDD;
@@ -534,7 +589,7 @@ static void prop_one_level(Tape &t, Ctx &c) {
             BP S(comm, tup, prm);
             std::tie(iters, resid) = S(fl, xl);
         }
-    } catch (const std::exception &e) { threw = true; cerr_ = std::string("exception on this rank: ") + e.what(); }
+    } catch (const std::exception &e) { threw = true; cerr_ = std::string("exception on this rank: ") + e.what(); if (env_flag("VF_C12_TRACE")) std::cerr << "TRACE rank " << me << ": " << cerr_ << std::endl; }
     std::vector<cplx> X = gather_vec(xl);
     std::vector<double> all = allgatherv(std::vector<double>{double(iters), resid}, MPI_DOUBLE);
     mpi_checked([&]() {
